@@ -125,6 +125,10 @@ def run(ctx):
                     why = "entry point %s takes %s" % (x["name"], x["params"])
                 if k != "reply" and not x["msg"].endswith("::" + ACCESSOR[k]):
                     why = "entry point %s decodes %s" % (x["name"], x["msg"])
+                # "builds the contract with its parameterless constructor": of the contract type the attribute names
+                cty = "Ct" + ("::<%s>" % ",".join(g.replace(" ", "") for g in ct["ep_generics"]) if ct.get("ep_generics") else "")
+                if (cty + "::new()") not in x["body"].replace(" ", ""):
+                    why = "entry point %s does not build the contract as %s::new(): %s" % (x["name"], cty, x["body"][:160])
         if f.get("passthrough") not in ("eq", None):
             why = (why or "") + " input not re-emitted unchanged: " + str(f.get("passthrough"))
         if why:
